@@ -196,6 +196,22 @@ def one(chk, repo, sp):
             chk.ok("C13.pong", cls.methods[q], f"{tag} {q}() routes into _handle_ping_pong_exception")
         else:
             chk.violation("C13.pong", cls.methods[q], q, "self._handle_ping_pong_exception(...)", f"{tag} {q}() no longer ends the session")
+    # ---- heartbeat timer handle: the callback clears / re-arms its own handle on every path ----
+    hb = cls.methods.get("_send_heartbeat")
+    if hb is not None:
+        ghb = cfg_of(hb.node)
+        def sets_handle(n):
+            return n.kind == "stmt" and isinstance(n.ast, ast.Assign) and any(norm.raw(t) == "self._heartbeat_cb" for t in n.ast.targets)
+        pth = ghb.find_path([ghb.entry], lambda n: n is ghb.exit, sets_handle, EXPLICIT)
+        if pth is None:
+            chk.ok("C13.heartbeat", hb, f"{tag} _send_heartbeat(): the fired timer handle is cleared (or replaced) on every path")
+        else:
+            chk.violation("C13.heartbeat", hb, "_send_heartbeat", "self._heartbeat_cb = None on every path",
+                          f"{tag} the heartbeat callback can return with its fired handle still stored: _reset_heartbeat() only arms a timer when the handle is None, so the heartbeat (ping and pong timeout) never runs again and a silent peer blocks receive() forever",
+                          path=ghb.fmt_path(pth))
+        rh = cls.methods.get("_reset_heartbeat")
+        if rh is not None and K.exprs(rh, "loop.call_at(when, self._send_heartbeat)") and PC.has_lit(PC.pc(K.exprs(rh, "loop.call_at(when, self._send_heartbeat)")[0][0]), "self._heartbeat_cb is None", True) is not None:
+            chk.ok("C13.heartbeat", rh, f"{tag} _reset_heartbeat() arms the timer when no handle is stored")
     # ---- receive dispatch ---------------------------------------------------------------------------------------------------------
     first_await = min((a.lineno for a in prog.awaits_in(recv.node)), default=10**9)
     rz = [(n, c) for n, c in K.raises_in(recv.node) if c == "RuntimeError" and PC.has_lit(PC.pc(n), "self._waiting", True) is not None]
